@@ -100,7 +100,7 @@ def abstract(pairs, relativize):
     """[(owner name, rdataset)] -> [serial, sorted items]; anything that is not part of the
     abstract content (unexpected owner/type/ttl/rdata) becomes a flagged item, so it can
     never equal a model content."""
-    serial = 0
+    serial = -1          # no SOA (0 is a valid serial)
     items = []
     seen_ns = False
     for name, rds in pairs:
@@ -110,7 +110,7 @@ def abstract(pairs, relativize):
             items.append(["?%s/%s/ttl%d" % (n, ty, int(rds.ttl)), 0])
             continue
         if n == "@" and rds.rdtype == SOA and len(rds) == 1:
-            if serial != 0:
+            if serial != -1:
                 items.append(["?dupsoa", 0])
             serial = int(rds[0].serial)
             if serial > 1000000:
@@ -126,9 +126,9 @@ def abstract(pairs, relativize):
                 items.append([n, _A_REV.get(rd, -1)])
         else:
             items.append(["?%s/%s/%d" % (n, ty, len(rds)), 0])
-    if serial != 0 and not seen_ns:
+    if serial != -1 and not seen_ns:
         items.append(["?nons", 0])
-    if serial == 0 and seen_ns:
+    if serial == -1 and seen_ns:
         items.append(["?nosoa", 0])
     items.sort()
     return [serial, items]
@@ -178,7 +178,7 @@ def observe(txn, relativize):
     out = {}
     for key, fn in (("iter", via_iter), ("get", via_get), ("node", via_node)):
         res, exc, val = call(fn)
-        out[key] = val if res == "ok" else [-1, [["?" + exc, 0]]]
+        out[key] = val if res == "ok" else [-9, [["?" + exc, 0]]]
     res, exc, val = call(via_names)
     out["names"] = val if res == "ok" else ["?" + exc]
     # name_exists agrees with the names route (projected as the list of existing names)
@@ -213,7 +213,7 @@ def snapshot(zone, handles, relativize):
 def version_serial(zone, version):
     oname = dns.name.empty if zone.relativize else zone.origin
     rds = version.get_rdataset(oname, SOA, NONE)
-    return 0 if rds is None else rds[0].serial
+    return -1 if rds is None else rds[0].serial
 
 
 CUSTOM = {
@@ -342,6 +342,10 @@ def mutate_through_reader(zone, txn, relativize):
                 r0 = nd.rdatasets[0]
                 attempts.append((lab + ".delete_rdataset", lambda nd=nd, r0=r0: nd.delete_rdataset(r0.rdclass, r0.rdtype, r0.covers)))
                 attempts.append((lab + ".rdatasets[0].update_ttl", lambda r0=r0: r0.update_ttl(77)))
+                # calls that request no change must be refused as well
+                attempts.append((lab + ".rdatasets[0].update_ttl(same)", lambda r0=r0: r0.update_ttl(r0.ttl)))
+                attempts.append((lab + ".rdatasets[0].update_ttl(larger)", lambda r0=r0: r0.update_ttl(r0.ttl + 100)))
+                attempts.append((lab + ".rdatasets[0].add(present)", lambda r0=r0: r0.add(r0[0])))
     node = txn.get_node(apex)
     if node is not None:
         attempts += [
@@ -544,7 +548,7 @@ def random_script(seed, steps, fresh):
     rnd = random.Random(seed)
     script = []
     if fresh:
-        script.append({"op": "init", "kind": "fresh", "content": {"serial": 0, "items": []}})
+        script.append({"op": "init", "kind": "fresh", "content": {"serial": -1, "items": []}})
         newest = 1
     else:
         script.append({"op": "init", "kind": "loaded", "content": rand_content(rnd)})
@@ -591,7 +595,7 @@ def random_script(seed, steps, fresh):
             script.append({"op": "open", "how": "id", "rid": free[0], "arg": n, "maybe": True})
             open_rids[free[0]] = "maybe"
         elif op == "openserial":
-            script.append({"op": "open", "how": "serial", "rid": free[0], "arg": rnd.randint(1, 5), "maybe": True})
+            script.append({"op": "open", "how": "serial", "rid": free[0], "arg": rnd.randint(0, 5), "maybe": True})
             open_rids[free[0]] = "maybe"
         elif op == "openboth":
             script.append({"op": "open", "how": "both", "rid": free[0], "arg": 1})
@@ -621,7 +625,7 @@ def rand_content(rnd):
     if rnd.random() < 0.4:
         items.append(["d", 0])
     items.sort()
-    return {"serial": rnd.randint(1, 4), "items": items}
+    return {"serial": rnd.randint(0, 4), "items": items}
 
 
 def run_job(job):
